@@ -40,6 +40,7 @@ var ownDiscipline = map[string]string{
 	"serverConn.clientWindow":  "owner:go:(*serverConn).Serve$3",
 	"serverConn.currentWindow": "owner:go:(*serverConn).Serve$3",
 	"serverConn.lastID":        "owner:go:(*serverConn).Serve$3",
+	"serverConn.discard":       "owner:go:(*serverConn).Serve$3",
 	"serverConn.state":         "atomic", "serverConn.closeRef": "atomic",
 	// Conn
 	"Conn.c": "init-only", "Conn.maxWindow": "init-only", "Conn.current": "init-only", "Conn.disableAcks": "init-only",
